@@ -177,6 +177,10 @@ class Explorer:
         term = z3.simplify(term)
         if z3.is_int_value(term):
             return term.as_long()
+        return self.choose_value(term, lambda v: v.as_long(), lambda t, k: t == k, cap)
+
+    def choose_value(self, term, to_py, eq, cap=40):
+        """Fork over all feasible values of `term` (enumerated with the solver); `eq(term, value)` builds the pin."""
         self.n_decisions += 1
         if self.pos < len(self.prefix):
             d = self.prefix[self.pos]
@@ -184,23 +188,28 @@ class Explorer:
                 raise EngineError("trace desynchronised (expected value decision)")
             self.pos += 1
             self.trace.append(d)
-            self.add(term == d[1])
+            self.add(eq(term, d[1]))
             self.model = None
             return d[1]
         self.pos += 1
         vals = []
         if self.model is not None:
-            vals.append(self.model.eval(term, model_completion=True).as_long())
+            v0 = to_py(self.model.eval(term, model_completion=True))
+            if v0 is not None:
+                vals.append(v0)
         while True:
-            cons = [term != v for v in vals]
+            cons = [z3.Not(eq(term, v)) for v in vals]
             r = self.check(*cons)
             if r == "unsat":
                 break
             if r != "sat":
-                raise Inconclusive("solver unknown while concretising an integer")
-            vals.append(self.last_model().eval(term, model_completion=True).as_long())
+                raise Inconclusive("solver unknown while concretising a value")
+            v = to_py(self.last_model().eval(term, model_completion=True))
+            if v is None:
+                raise Inconclusive("value without a concrete model")
+            vals.append(v)
             if len(vals) > cap:
-                raise Inconclusive(f"symbolic integer with more than {cap} feasible values: {term}")
+                raise Inconclusive(f"symbolic value with more than {cap} feasible values: {term}")
         if not vals:
             raise PathAbort()
         vals.sort()
@@ -208,7 +217,7 @@ class Explorer:
             self.worklist.append(self.trace + [("v", v)])
         d = ("v", vals[0])
         self.trace.append(d)
-        self.add(term == vals[0])
+        self.add(eq(term, vals[0]))
         self.model = None
         return vals[0]
 
